@@ -12,7 +12,7 @@ theorem decodeVal_idem (b b' : Bool) : ∀ (t : VTy) (j c : Json), decodeVal b t
   refine decodeVal.induct b
     (motive1 := fun t j => ∀ c, decodeVal b t j = some c → decodeVal b' t c = some c)
     (motive2 := fun t xs => ∀ cs, decodeVals b t xs = some cs → decodeVals b' t cs = some cs)
-    ?_ ?_ ?_ ?_ ?_ ?_ ?_ ?_ ?_ ?_ ?_ ?_ ?_ ?_ ?_ ?_ ?_ ?_ t j
+    ?_ ?_ ?_ ?_ ?_ ?_ ?_ ?_ ?_ ?_ ?_ ?_ ?_ ?_ ?_ ?_ ?_ ?_ ?_ ?_ t j
   · intro bits s c h
     simp only [decodeVal] at h ⊢
     cases hn : canonNat s with
@@ -43,6 +43,8 @@ theorem decodeVal_idem (b b' : Bool) : ∀ (t : VTy) (j c : Json), decodeVal b t
       split at h
       · cases h; simp [decodeVal, hn, *]
       · cases h
+  · intro s hb c h; simp only [decodeVal, hb, if_true] at h; cases h; simp [decodeVal, hb]
+  · intro s hb c h; simp [decodeVal, hb] at h
   · intro ms c h; simp only [decodeVal] at h; cases h; simp [decodeVal]
   · intro xs hv c h; simp only [decodeVal, hv, if_true] at h; cases h; simp [decodeVal]
   · intro xs hv c h; simp [decodeVal, hv] at h
@@ -89,14 +91,11 @@ theorem decodeVal_idem (b b' : Bool) : ∀ (t : VTy) (j c : Json), decodeVal b t
         cases h
         simp [decodeVal, iha x' hx, ihb y' hy]
   · intro a b2 x y hd tl hv c h; simp [decodeVal, hv] at h
-  · intro t j h1 h2 h3 h4 h5 h6 h7 h8 h9 h10 h11 h12 h13 c h
+  · intro t j h1 h2 h3 h4 h5 h6 h7 h8 h9 h10 h11 h12 h13 h14 c h
     exfalso
     cases t <;> cases j <;>
       first
-      | exact h1 _ _ rfl rfl | exact h2 _ _ rfl rfl | exact h3 _ rfl rfl
-      | exact h4 _ rfl rfl | exact h5 _ rfl rfl | exact h6 _ rfl rfl
-      | exact h7 _ rfl rfl | exact h8 _ rfl rfl | exact h9 _ rfl rfl | exact h10 _ rfl
-      | exact h11 _ _ rfl rfl
+      | exact h1 _ _ rfl rfl | exact h1 _ rfl rfl | exact h1 _ rfl | exact h2 _ _ rfl rfl | exact h2 _ rfl rfl | exact h2 _ rfl | exact h3 _ _ rfl rfl | exact h3 _ rfl rfl | exact h3 _ rfl | exact h4 _ _ rfl rfl | exact h4 _ rfl rfl | exact h4 _ rfl | exact h5 _ _ rfl rfl | exact h5 _ rfl rfl | exact h5 _ rfl | exact h6 _ _ rfl rfl | exact h6 _ rfl rfl | exact h6 _ rfl | exact h7 _ _ rfl rfl | exact h7 _ rfl rfl | exact h7 _ rfl | exact h8 _ _ rfl rfl | exact h8 _ rfl rfl | exact h8 _ rfl | exact h9 _ _ rfl rfl | exact h9 _ rfl rfl | exact h9 _ rfl | exact h10 _ _ rfl rfl | exact h10 _ rfl rfl | exact h10 _ rfl | exact h11 _ _ rfl rfl | exact h11 _ rfl rfl | exact h11 _ rfl | exact h12 _ _ rfl rfl | exact h12 _ rfl rfl | exact h12 _ rfl | exact h13 _ _ rfl rfl | exact h13 _ rfl rfl | exact h13 _ rfl | exact h14 _ _ rfl rfl | exact h14 _ rfl rfl | exact h14 _ rfl
       | (simp [decodeVal] at h; done)
       | skip
   · intro t cs h; simp only [decodeVals] at h; cases h; simp [decodeVals]
